@@ -135,7 +135,9 @@ func c14Purity(c *Ctx, a *sketchAnchors, pr *paginatedRoles) {
 	c.R.floor(rule, "read-only (operation × implementation) instances", n, 120)
 
 	// the factored-out routines write only what they are allowed to
-	if pr.sort != nil {
+	if pr.sort != nil && pr.sortFlag != "" {
+		c14SortFlag(c, pr)
+	} else if pr.sort != nil {
 		sortMods := c.Mod.ModsRooted(pr.sort, 0)
 		okSort := len(sortMods) == 1 && sortMods[0] == "."+pr.bufFld+"[*]" && len(c.Mod.Mods[pr.sort]) == 1
 		c.R.check(okSort, rule, "paginated/sort-routine-writes", shortFn(pr.sort), c.fpos(pr.sort), "the sort routine only permutes the elements of the buffer", strings.Join(c.Mod.Mods[pr.sort].sorted(), " "))
@@ -531,4 +533,122 @@ func fieldValueAt(p *Path, r *Term, path []string, upTo int, depth int) *Term {
 		val = t
 	}
 	return val
+}
+
+// c14SortFlag: the store caches "the buffer is sorted" in a bool field so that the sort routine can return at once.
+// The cache is invisible (it is excluded from the observable write sets) only if it can never claim sortedness
+// wrongly — a typestate obligation:
+//   (a) the sort routine skips sorting only under flag == true and raises the flag only after sort.Ints(whole buffer);
+//   (b) outside the sort and compaction routines, every path that appends to or overwrites the buffer lowers the flag
+//       on that path, or shows evidence that sortedness is kept: the flag was already false, the buffer was empty
+//       before a single append, or the appended index was compared with the last element;
+//   (c) the flag is raised elsewhere only together with emptying the buffer (Clear) or in a constructor.
+// Copy/Clear coverage of the field is C14-D2 / C15-D1 like for any other field.
+func c14SortFlag(c *Ctx, pr *paginatedRoles) {
+	const rule = "C14-D1"
+	flag := pr.sortFlag
+	// (a)
+	{
+		ps, _ := exec(c, pr.sort, nil, 1)
+		for i, p := range ps {
+			sorted, raise := 0, 0
+			other := ""
+			for _, e := range p.Writes() {
+				switch {
+				case e.Kind == "call" && e.Call.Op == "call" && e.Call.Sym == "sort.Ints" && len(e.Call.Args) == 1 && isRecvField(e.Call.Args[0].unver(), pr.bufFld):
+					sorted = e.Seq
+				case e.Kind == "store" && isRecvField(e.Addr, flag) && e.Val.isConst("true"):
+					raise = e.Seq
+				default:
+					other = e.String()
+				}
+			}
+			flagSet, tested := pathCond(p, func(t *Term) bool { return isRecvField(t, flag) })
+			key := fmt.Sprintf("paginated/sorted-flag/%s/path%d[%s]", shortFn(pr.sort), i, pathSig(p))
+			if sorted == 0 {
+				c.R.check(tested && flagSet && raise == 0 && other == "", rule, key, shortFn(pr.sort), c.fpos(pr.sort), "sorting is skipped only when the flag is set; nothing else is written", "["+p.String()+"] "+other)
+			} else {
+				c.R.check(raise > sorted && other == "", rule, key, shortFn(pr.sort), c.fpos(pr.sort), "the flag is raised only after sort.Ints(buffer); nothing else is written", fmt.Sprintf("sort at step %d, raise at step %d %s", sorted, raise, other))
+			}
+		}
+	}
+	// (b), (c)
+	n := 0
+	for i := 0; i < pr.typ.NumMethods(); i++ {
+		f := c.P.SSA.FuncValue(pr.typ.Method(i))
+		if f == nil || f == pr.sort || f == pr.compact {
+			continue
+		}
+		ps, _ := execWith(c, f, nil, 2, func(cal *ssa.Function) bool { return cal != pr.sort && cal != pr.compact && inlineNewHelpers(cal) })
+		bad := ""
+		writes := 0
+		for _, p := range ps {
+			unsorting, lowered, raised, emptied := false, false, false, false
+			for _, e := range p.Effects {
+				if e.Kind != "store" {
+					continue
+				}
+				a := e.Addr.unver()
+				switch {
+				case isRecvField(a, pr.bufFld):
+					v := e.Val
+					if v.Op == "slice" && len(v.Args) == 3 && isRecvField(v.Args[0].unver(), pr.bufFld) {
+						// a reslice of itself keeps the order; [:0] empties it
+						if v.Args[2].isConst("0") {
+							emptied = true
+						}
+					} else {
+						unsorting = true
+					}
+				case a.Op == "index" && isRecvField(a.Args[0].unver(), pr.bufFld):
+					unsorting = true
+				case isRecvField(a, flag):
+					if e.Val.isConst("false") {
+						lowered = true
+					} else if !(e.Val.Op == "field" && e.Val.Sym == flag) {
+						raised = true
+					}
+				}
+			}
+			if unsorting {
+				writes++
+				evidence := lowered
+				for _, cd := range p.Conds {
+					t := cd.Term
+					switch {
+					case isRecvField(t.unver(), flag) && !cd.Taken: // already marked unsorted
+						evidence = true
+					case t.isBin("<") && t.Args[0].isConst("0") && t.Args[1].Op == "builtin" && t.Args[1].Sym == "len" && isRecvField(t.Args[1].Args[0].unver(), pr.bufFld) && !cd.Taken && !p.hasLoopStoreTo(pr.bufFld):
+						evidence = true // the buffer was empty: a single append keeps it sorted
+					default:
+						// an ordering test against the last element of the buffer
+						hit := false
+						t.walk(func(x *Term) bool {
+							if x.Op == "index" && isRecvField(x.Args[0].unver(), pr.bufFld) {
+								l := linearOf(x.Args[1])
+								if l.Const == -1 && len(l.Coef) == 1 {
+									hit = true
+								}
+							}
+							return true
+						})
+						if hit && (t.isBin("<") || t.isBin("<=")) {
+							evidence = true
+						}
+					}
+				}
+				if !evidence {
+					bad = "the buffer is appended to or overwritten on path [" + p.String() + "] without lowering the flag or showing that the order is kept"
+				}
+			}
+			if raised && !emptied && f.Name() != "" {
+				bad = firstNonEmpty(bad, "the flag is raised outside the sort routine without emptying the buffer: ["+p.String()+"]")
+			}
+		}
+		if writes > 0 || bad != "" {
+			n++
+			c.R.check(bad == "", rule, "paginated/sorted-flag/maintained-by/"+f.Name(), shortFn(f), c.fpos(f), "every buffer write outside the sort/compaction routines lowers the sorted flag or shows that the order is kept; the flag is raised only by the sort routine or together with emptying the buffer", firstNonEmpty(bad, fmt.Sprintf("%d writing path(s)", writes)))
+		}
+	}
+	c.R.floor(rule, "methods writing the buffer (sorted-flag maintenance)", n, 2)
 }
